@@ -889,6 +889,8 @@ class NumaNode(Node):
 
             # otherwise we fill the `numa_domains` map with virtual node instances,
             # one per NUMA domain
+            # NOTE: defaults are not copied per instance, so create the map here
+            self.numa_domains = dict()
             for domain_id, domain_descr in numa_domain_map.items():
 
                 n = Node(from_dict)
